@@ -105,6 +105,15 @@ pub fn suite_encode(out: &mut Out, tier: &str, rng: &mut Rng) {
             }
         }
     }
+    // a VecWriter that REALLY holds 64 MiB + 1 (thorough: also 100 MiB) octets, capacity exactly full
+    for n in [64usize * 1024 * 1024 + 1, 100 * 1024 * 1024] {
+        if n > 70_000_000 && tier != "thorough" {
+            continue;
+        }
+        for (kind, v) in [("avp", gen_avp(rng, 20)), ("msg", gen_control(rng, 3, 12)), ("msg", gen_data(rng, 30))] {
+            out.emit(json!({"op": "encode", "kind": kind, "v": v, "prefix": [], "wr": "vec", "prefix_fill": {"len": n, "byte": 0xa5}}));
+        }
+    }
     // writer positions at and beyond 2^31 / 2^32 (a Writer that behaves as if it already held that much):
     // positions kept in 32 bits, or with a bit borrowed for a flag, go wrong here
     for k in [16u32, 24, 30, 31, 32, 33, 40, 47, 62] {
@@ -758,6 +767,17 @@ pub fn suite_enum(out: &mut Out, _tier: &str, _rng: &mut Rng) {
             }
         }
     }
+    // the attribute-type and message-type sweeps inside messages with other version nibbles and every check off
+    for ver in [3u8, 0, 15] {
+        for (f, ctx) in [("AttributeType", 6u16), ("MessageType", 0), ("ErrorType", 4), ("ProxyAuthenType", 12)] {
+            if ver != 3 && f != "AttributeType" {
+                continue;
+            }
+            for (lo, hi) in [(0u32, 255u32), (256, 65535)] {
+                out.emit(json!({"op": "enum_map", "field": f, "lo": lo, "hi": hi, "ctx": ctx, "ver": ver}));
+            }
+        }
+    }
     // the same sweeps with the AVP inside a whole control message (Message::try_read_validate): as the first AVP
     // (message types), behind the message types that carry it (Result Code in StopCCN / CDN, Proxy Authen Type
     // in ICCN), and every attribute type behind a Hello
@@ -818,6 +838,13 @@ pub fn suite_bitmask(out: &mut Out, tier: &str, rng: &mut Rng) {
             words.push((rng.next() as u32).to_be_bytes());
         }
         out.emit(json!({"op": "bitmask", "kind": k, "words": words.iter().map(|w| bytes_json(w)).collect::<Vec<_>>()}));
+        // ALL 2^32 words, in 16 chunks (16 threads each): the release build takes every one of them in both tiers, the
+        // build with debug assertions 2^24 per chunk in the quick tier and all in the thorough tier
+        for chunk in 0..16u64 {
+            let lo = chunk << 28;
+            out.emit(json!({"op": "bitmask_sweep", "kind": k, "lo": lo, "hi": lo + (1u64 << 28) - 1, "threads": 16,
+                            "dev_span_log2": if tier == "thorough" { 28 } else { 24 }}));
+        }
         // the same words as whole records through AVP::try_read_greedy, header M bit set / clear / reserved bits set
         for f6 in [1u8, 0, 0x3d, 0x3c] {
             let some: Vec<Value> = words.iter().step_by(if tier == "thorough" { 1 } else { 4 }).map(|w| bytes_json(w)).collect();
@@ -2260,6 +2287,15 @@ pub fn suite_avp_lengths(out: &mut Out, tier: &str, rng: &mut Rng) {
             }
             let d = json!({"k": "Data", "prio": rng.bool(), "length": [total], "tunnel_id": rng.u16(), "session_id": rng.u16(),
                            "ns_nr": ns_nr, "offset": opt_json(offset.map(|x| json!(x))), "data": bytes_json(&data)});
+            out.emit(json!({"op": "roundtrip", "kind": "msg", "v": d}));
+        }
+    }
+    // data messages beyond 64 KiB (legal without a Length field) whose offset size is 65520..=65535
+    for n in [65520usize, 65524, 65527, 65528, 65531, 65535] {
+        for has_s in [false, true] {
+            let data = rng.bytes(n + 1 + (n % 7));
+            let d = json!({"k": "Data", "prio": n % 2 == 0, "length": [], "tunnel_id": rng.u16(), "session_id": rng.u16(),
+                           "ns_nr": if has_s { json!([[rng.u16(), rng.u16()]]) } else { json!([]) }, "offset": [n], "data": bytes_json(&data)});
             out.emit(json!({"op": "roundtrip", "kind": "msg", "v": d}));
         }
     }
